@@ -184,8 +184,8 @@ RULES.append(("C03.k", "must-pass-through: no path around the effects this prope
 
 def rule_commit(ctx):
     from . import mustpass
-    for g, floor in [('mailbox-signals', 12), ('sched-queue', 25), ('throw', 8), ('ports', 80), ('lockfree', 25)]:
-        mustpass.commit_group(ctx, g, floor)
+    for spec in [('mailbox-signals', 12), ('sched-queue', 25), ('throw', 8), ('ports', 80), ('lockfree', 9, r'^channel::queue::|^util::(task_set|cached_rw_lock)::')]:
+        mustpass.commit_group(ctx, *spec)
 
 
 RULES.append(("C03.l", "branch-commit: between the decision to perform an effect and the effect there is no way out", rule_commit))
